@@ -829,6 +829,7 @@ MUTANTS = [
     dict(name='c02-seed4-execute-tests-the-slot-before-registering', prop='C02', clause='D2', edits=[('src/tbb/arena.cpp', '                a->my_exit_monitors.prepare_wait(waiter);\n                if (!wo.continue_execution()) {\n                    a->my_exit_monitors.cancel_wait(waiter);\n                    break;\n                }\n                index2 = a->occupy_free_slot</*as_worker*/false>(*td);\n                if (index2 != arena::out_of_arena) {\n                    a->my_exit_monitors.cancel_wait(waiter);\n                    nested_arena_context scope(*td, *a, index2 );', '                index2 = a->occupy_free_slot</*as_worker*/false>(*td);\n                if (index2 != arena::out_of_arena) {\n                    nested_arena_context scope(*td, *a, index2 );'), ('src/tbb/arena.cpp', '                    break;\n                }\n                a->my_exit_monitors.commit_wait(waiter);', '                    break;\n                }\n                a->my_exit_monitors.prepare_wait(waiter);\n                if (!wo.continue_execution()) {\n                    a->my_exit_monitors.cancel_wait(waiter);\n                    break;\n                }\n                a->my_exit_monitors.commit_wait(waiter);')]),
     dict(name='c20-seed5-isolated-waits-skip-the-resume-stream', prop='C20', clause='D2', edits=[(TDH, '    bool stealing_is_allowed = can_steal();\n', '    bool stealing_is_allowed = can_steal();\n    const bool streams_allowed = isolation == no_isolation;\n'), (TDH, '        else if ((t = get_stream_or_critical_task(ed, a, resume_stream, resume_hint, isolation, critical_allowed))) {', '        else if (streams_allowed\n                 && (t = get_stream_or_critical_task(ed, a, resume_stream, resume_hint, isolation, critical_allowed))) {'), (TDH, '        else if (fifo_allowed && isolation == no_isolation\n                 && (t = get_stream_or_critical_task(ed, a, fifo_stream, fifo_hint, isolation, critical_allowed))) {', '        else if (streams_allowed && fifo_allowed\n                 && (t = get_stream_or_critical_task(ed, a, fifo_stream, fifo_hint, isolation, critical_allowed))) {')]),
     dict(name='c20-resume-stream-gated-by-isolation-directly', prop='C20', clause='D2', edits=[(TDH, '        else if ((t = get_stream_or_critical_task(ed, a, resume_stream, resume_hint, isolation, critical_allowed))) {', '        else if (isolation == no_isolation\n                 && (t = get_stream_or_critical_task(ed, a, resume_stream, resume_hint, isolation, critical_allowed))) {')]),
+    dict(name='c20-critical-stream-filter-without-the-resume-exemption', prop='C20', clause='D2', edits=[('src/tbb/task_stream.h', '            if( result && (task_accessor::isolation(*result) == isolation || task_accessor::is_resume_task(*result)) ) {', '            if( result && task_accessor::isolation(*result) == isolation ) {')]),
     dict(name='c20-resume-advertised-with-wakeup-only', prop='C20', clause='D2', edits=[('src/tbb/task.cpp',
         "        a.advertise_new_work<arena::work_enqueued>();", "        a.advertise_new_work<arena::wakeup>();")]),
     dict(name='c20-mandatory-worker-released-over-a-pending-resume', prop='C20', clause='D2', edits=[('src/tbb/arena.cpp',
@@ -1414,6 +1415,8 @@ MUTANTS = [
     dict(name='c15-join-accept-on-reject', prop='C15', clause='D2', edits=[
         (FGJ_H, "                                    else {\n                                        tuple_rejected();\n                                        build_succeeded = false;\n                                    }",
          "                                    else {\n                                        tuple_accepted();\n                                        build_succeeded = false;\n                                    }")]),
+    dict(name='c15-sequence-number-successor-wraps', prop='C15', clause='D3', edits=[('include/oneapi/tbb/flow_graph.h', '        if (tag + 1 == 0) {\n            // the largest sequence number has no successor: tag+1 would wrap, the tail would not cover the item\n            // and it would be written over a buffered one\n            op->status.store(FAILED, std::memory_order_release);\n            return false;\n        }\n', '')]),
+    dict(name='c15-sequence-number-wrap-test-only-for-an-empty-buffer', prop='C15', clause='D3', edits=[('include/oneapi/tbb/flow_graph.h', '        if (tag + 1 == 0) {\n            // the largest sequence number has no successor: tag+1 would wrap, the tail would not cover the item\n            // and it would be written over a buffered one\n            op->status.store(FAILED, std::memory_order_release);\n            return false;\n        }\n', '        if (tag + 1 == 0 && this->my_head == 0) {\n            // the largest sequence number has no successor: tag+1 would wrap, the tail would not cover the item\n            // and it would be written over a buffered one\n            op->status.store(FAILED, std::memory_order_release);\n            return false;\n        }\n')]),
     dict(name='c15-sequencer-accepts-stale', prop='C15', clause='D3', edits=[
         (FG_H, "        if (tag < this->my_head) {\n            // have already emitted a message with this tag\n            op->status.store(FAILED, std::memory_order_release);\n            return false;\n        }", "")]),
     dict(name='c15-queue-pop-while-reserved', prop='C15', clause='D3', edits=[
@@ -1475,6 +1478,7 @@ MUTANTS = [
     dict(name='c16-local-pool-task-runs-with-the-previous-tag', prop='C16', clause='D4', edits=[(TDH, '                    ed.context = task_accessor::context(*t);\n                    ed.isolation = task_accessor::isolation(*t);\n                    continue;', '                    ed.context = task_accessor::context(*t);\n                    continue;')]),
     dict(name='c16-critical-task-runs-with-the-previous-tag', prop='C16', clause='D4', edits=[(TDH, '        ed.context = task_accessor::context(*crit_t);\n        ed.isolation = task_accessor::isolation(*crit_t);', '        ed.context = task_accessor::context(*crit_t);\n        ed.isolation = isolation;')]),
     dict(name='c16-stolen-task-respawned-with-the-previous-tag', prop='C16', clause='D4', edits=[(TDH, '        ed.context = task_accessor::context(*t);\n        ed.isolation = task_accessor::isolation(*t);\n        return get_critical_task(t, ed, isolation, critical_allowed);', '        ed.context = task_accessor::context(*t);\n        return get_critical_task(t, ed, isolation, critical_allowed);')]),
+    dict(name='c16-critical-stream-hands-out-any-task', prop='C16', clause='D4', edits=[('src/tbb/task_stream.h', '            if( result && (task_accessor::isolation(*result) == isolation || task_accessor::is_resume_task(*result)) ) {', '            if( result ) {')]),
     # ---------------------------------------------------------------- C17
     dict(name='c17-free-always-own', prop='C17', clause='D1', edits=[
         (FE_CPP, "    if (block->isOwnedByCurrentThread()) {\n        block->freeOwnObject(object);\n    } else {", "    if (block->isOwnedByCurrentThread() || block->empty()) {\n        block->freeOwnObject(object);\n    } else {")]),
@@ -1648,6 +1652,9 @@ MUTANTS += [
 ]
 
 BENIGN = [
+    dict(name='c20-b-resume-exemption-through-a-local', prop='C20', edits=[('src/tbb/task_stream.h', '            if( result && (task_accessor::isolation(*result) == isolation || task_accessor::is_resume_task(*result)) ) {', '            const bool resume_task = result && task_accessor::is_resume_task(*result);\n            if( result && (resume_task || task_accessor::isolation(*result) == isolation) ) {')]),
+    dict(name='c16-b-resume-exemption-through-a-local', prop='C16', edits=[('src/tbb/task_stream.h', '            if( result && (task_accessor::isolation(*result) == isolation || task_accessor::is_resume_task(*result)) ) {', '            const bool resume_task = result && task_accessor::is_resume_task(*result);\n            if( result && (resume_task || task_accessor::isolation(*result) == isolation) ) {')]),
+    dict(name='c15-b-wrap-test-against-the-maximum', prop='C15', edits=[('include/oneapi/tbb/flow_graph.h', '        if (tag + 1 == 0) {\n            // the largest sequence number has no successor: tag+1 would wrap, the tail would not cover the item\n            // and it would be written over a buffered one\n            op->status.store(FAILED, std::memory_order_release);\n            return false;\n        }\n', '        if (tag == std::size_t(-1)) {\n            // the largest sequence number has no successor: tag+1 would wrap, the tail would not cover the item\n            // and it would be written over a buffered one\n            op->status.store(FAILED, std::memory_order_release);\n            return false;\n        }\n')]),
     dict(name='c11-b-long-table-wait-bound-by-segment-index', prop='C11', edits=[(CV_H, '        for (segment_index_type i = 0; this->segment_base(i) < start_index; ++i) {\n            spin_wait_while_eq(embedded_table[i], segment_type(nullptr));', '        for (segment_index_type i = 0; start_index != 0 && i <= this->segment_index_of(start_index - 1); ++i) {\n            spin_wait_while_eq(embedded_table[i], segment_type(nullptr));')]),
     dict(name='c19-b-key-swapped-by-hand', prop='C19', edits=[('include/oneapi/tbb/enumerable_thread_specific.h', '       using std::swap;\n       __TBB_ASSERT(this!=&other, "Don\'t swap an instance with itself");\n       swap(my_key, other.my_key);\n       super::table_swap(other);', '       __TBB_ASSERT(this!=&other, "Don\'t swap an instance with itself");\n       tls_key_t k = my_key;\n       my_key = other.my_key;\n       other.my_key = k;\n       super::table_swap(other);')]),
     dict(name='c20-b-fifo-gate-through-a-local', prop='C20', edits=[(TDH, '    bool stealing_is_allowed = can_steal();\n', '    bool stealing_is_allowed = can_steal();\n    const bool streams_allowed = isolation == no_isolation;\n'), (TDH, '        else if (fifo_allowed && isolation == no_isolation\n                 && (t = get_stream_or_critical_task(ed, a, fifo_stream, fifo_hint, isolation, critical_allowed))) {', '        else if (streams_allowed && fifo_allowed\n                 && (t = get_stream_or_critical_task(ed, a, fifo_stream, fifo_hint, isolation, critical_allowed))) {')]),
